@@ -28,11 +28,12 @@ Definition attr := (bytes * value)%type.
 Inductive level := LDebug | LInfo | LWarn | LError | LFatal.
 
 (** what one Handle call gets: r.Time rendered RFC3339 (oracle text), r.Level,
-    the source text "dir/file.go:line" when addSource is on, r.Message, r.Attrs *)
+    when addSource is on the frame of r.PC as (full f.File, decimal text of f.Line),
+    r.Message, r.Attrs *)
 Record record := mkRecord {
   time_txt : bytes;
   lvl : level;
-  src : option bytes;
+  src : option (bytes * bytes);
   msg : bytes;
   attrs : list attr
 }.
@@ -171,7 +172,7 @@ Section Wf.
   Definition wf_chain (c : list deriv) : bool := forallb wf_deriv c.
   Definition wf_record (r : record) : bool :=
     wf_bytes (time_txt r) && is_bare isSpace (time_txt r)
-    && (match src r with Some s => wf_bytes s | None => true end)
+    && (match src r with Some s => wf_bytes (fst s) && wf_bytes (snd s) | None => true end)
     && wf_bytes (msg r) && wf_attrs (attrs r).
 End Wf.
 
@@ -208,8 +209,26 @@ Definition k_level : bytes := [108; 101; 118; 101; 108].
 Definition k_source : bytes := [115; 111; 117; 114; 99; 101].
 Definition k_msg : bytes := [109; 115; 103].
 
+(** the caller's place as the line states it: the last two elements of the file path
+    (what follows its second-last '/'; the whole path without a leading '/' when there
+    are fewer), ':' and the line number.  Read off the reversed path. *)
+Fixpoint rtake (slashes : nat) (r : bytes) : bytes :=
+  match r with
+  | [] => []
+  | b :: t =>
+    if b =? 47 then match slashes with O => [] | S k => b :: rtake k t end
+    else b :: rtake slashes t
+  end.
+Definition last_two (file : bytes) : bytes :=
+  let l := rev (rtake 1 (rev file)) in
+  match l with
+  | [] => []
+  | b :: t => if (b =? 47) && Nat.eqb (length l) (length file) then t else l
+  end.
+Definition source_value (s : bytes * bytes) : bytes := last_two (fst s) ++ 58 :: snd s.
+
 Definition expected_pairs (chain : list deriv) (r : record) : list (bytes * bytes) :=
   let c := chain_pairs [] chain in
   (k_time, time_txt r) :: (k_level, level_text (lvl r))
-  :: (match src r with Some s => [(k_source, s)] | None => [] end)
+  :: (match src r with Some s => [(k_source, source_value s)] | None => [] end)
   ++ (k_msg, msg r) :: fst c ++ attrs_pairs (snd c) (attrs r).
